@@ -38,8 +38,14 @@ pub fn run_family(fam: &Family, threads: usize) -> Vec<ProgResult> {
 /// Signature of a violating program.  If the program contains a pair of concurrent commands whose
 /// 2x1 signature is a listed finding, the violation is attributed to that pair.
 fn signature(prop: &str, clause: &str, prog: &Program, known: &[report::Known]) -> String {
-    let full = format!("{}|{}|{}", clause, prog.init.name(), prog.kinds().join("||"));
-    if known.iter().any(|k| k.property == prop && k.signature == full) {
+    let mut full = format!("{}|{}|{}", clause, prog.init.name(), prog.kinds().join("||"));
+    if !prog.tag.is_empty() {
+        full = format!("{}|{}", full, prog.tag);
+    }
+    // attribution to a listed pair is for defects of a pair of commands (C04's get-then-set pairs,
+    // C14's racing stores: inside a larger program the finding is the pair's); the accounting
+    // clauses and programs run in a special setting are identified by the whole program
+    if clause.starts_with("usage-") || !prog.tag.is_empty() || known.iter().any(|k| k.property == prop && k.signature == full) {
         return full;
     }
     // pairs of single commands from different clients
